@@ -32,7 +32,11 @@ META = {
                   "equal=>same matrix and sampled transitivity are evaluated on the real qp.equal/hash. Held on the pairs observed.",
     "level_note": "The oracle is the provenance of the pair (known to the generator) and numpy matrix comparison; qp.matrix itself is "
                   "trusted here (C01-C03 check it). Default rtol/atol, same-interface data (python/numpy). Objects carrying "
-                  "per-instance unique ids (DynamicWire, MeasurementValue of a fresh qp.measure) are not re-generated from seed.",
+                  "per-instance unique ids (DynamicWire, MeasurementValue of a fresh qp.measure) are not re-generated from seed. "
+                  "M-EQHASH is realised in the driver (every qp.equal call of the workload is followed by the hash comparison) rather "
+                  "than as an ambient wrapper around qp.equal. Round-trip partners whose data or nested classes were changed by the "
+                  "round trip itself are handed to C06 (not identical data). equal=>matrix is skipped for expressions containing a "
+                  "fractional power (discontinuous at base eigenvalue -1).",
     "shards": {"quick": 4, "thorough": 16},
     "budget_s": {"quick": 150, "thorough": 300},
     "min_evals": {"quick": 8000, "thorough": 80000},
